@@ -177,6 +177,16 @@ class OpaqueDict(SymDict):
         self.unknown = []      # (key, has: Bool, value)
 
 
+class SeqDict:
+    """dict built by a comprehension over a sequence of symbolic length: {key(i): val(i) for i < length}.  Python semantics:
+    a later item overrides an earlier one with an equal key, so d[k] is val(w) for the LAST w with key(w) == k."""
+    def __init__(self, length, key, val, label="seqdict"):
+        self.length = length
+        self.key = key
+        self.val = val
+        self.label = label
+
+
 class SymSeq:
     """symbolic sequence: length (z3 Int or int) + element function idx(z3 Int) -> value"""
     def __init__(self, length, elem, label="seq"):
@@ -1063,6 +1073,9 @@ class Engine:
             return b_or(stored, self.opaque_entry(cont, item)[1])
         if isinstance(cont, SymDict):
             return b_or(*[self.compare(ast.Eq(), item, k) for k, _ in cont.items])
+        if isinstance(cont, SeqDict):
+            q = z3.Int("q!in{}".format(next(self.fresh_counter)))
+            return z3.Exists([q], z3.And(q >= 0, to_z3(num_cmp("<", q, cont.length)), to_z3(self.compare(ast.Eq(), cont.key(q), item))))
         for hook in self.contains_hooks:
             r = hook(self, cont, item)
             if r is not NotImplemented:
@@ -1286,6 +1299,14 @@ class Engine:
             ent = self.opaque_entry(base, idx)
             self.oblige("dict-key-present", ent[1])
             return ent[2]
+        if isinstance(base, SeqDict):
+            self.oblige("dict-key-present", self.contains(base, idx))
+            w = self.fresh("w", "Int")
+            q = z3.Int("q!last{}".format(next(self.fresh_counter)))
+            self.assume(z3.And(w >= 0, to_z3(num_cmp("<", w, base.length)), to_z3(self.compare(ast.Eq(), base.key(w), idx))))
+            self.assume(z3.ForAll([q], z3.Implies(z3.And(q > w, to_z3(num_cmp("<", q, base.length))),
+                                                  z3.Not(to_z3(self.compare(ast.Eq(), base.key(q), idx))))))
+            return base.val(w)
         if isinstance(base, SymDict):
             # the most recent binding wins; fork on symbolic key equality
             for k, v in reversed(base.items):
@@ -1346,6 +1367,16 @@ class Engine:
         return VList(out)
 
     def ev_DictComp(self, node, env):
+        if len(node.generators) == 1 and not node.generators[0].ifs:
+            it = self.ev(node.generators[0].iter, env)
+            if isinstance(it, SymSeq) and getattr(it, "items", None) is None:
+                g = node.generators[0]
+
+                def at(i, what, it=it, g=g):
+                    e2 = Env(env)
+                    self.assign(g.target, it.elem(i), e2)
+                    return self.ev(what, e2)
+                return SeqDict(it.length, lambda i: at(i, node.key), lambda i: at(i, node.value))
         out = {}
 
         def emit(e2):
